@@ -7,3 +7,4 @@ INVARIANT Reflexive
 INVARIANT Transitive
 INVARIANT PinnedOK
 INVARIANT NaNTop
+INVARIANT ModelXAgrees
